@@ -8,7 +8,7 @@ R4 upstream data header: writer (client send_chunk) and reader (server) agree bi
 R5 downstream data header: writer (server sender) and reader (client) agree bit for bit
 R6 ping ack byte: writer (client send_ping) and reader (server) agree
 """
-from iosa import ir, guard, bits
+from iosa import ir, guard, bits, lin as L
 from iosa.ir import sk, pp, cval
 from iosa.facts import AnalysisBroken
 from . import common as C
@@ -232,6 +232,55 @@ def run(P, chk, tier):
                              witness={"facts": C.fmt_d(bad2[0], 30)} if bad2 else None)
     if ncomp < 2:
         raise AnalysisBroken("C01.R3: compress2 sites not found")
+
+    # ------------------------------------------------------------------ R7
+    r7 = chk.rule("C01.R7", "a full frame fits the ingest buffer",
+                  "every read_tun(fd, B, n) reads into a buffer that holds the largest frame the tun device can deliver: "
+                  "n <= sizeof B and n >= (largest MTU tun_setmtu accepts) + the 4-byte frame header read_tun accounts for; "
+                  "otherwise read() silently cuts the packet before compression and no checksum can notice", "E1 + constants", floor=2)
+    sm = P.func("tun_setmtu", "tun.c")
+    pm = sm.params[0]["ref"]["name"]
+    hi = None
+    for b, c in sm.calls():
+        if c.get("fn") in ("system", "ioctl", "snprintf") and any(pp(sk(a_)) == pm for a_ in c.get("a", ())):
+            ds = E.analysis(sm).before_node(c["n"]) or []
+            his = [guard.d_bounds(d, pm)[1] for d in ds]
+            if ds and all(h is not None for h in his):
+                hi = max(his) if hi is None else max(hi, max(his))
+    if hi is None:
+        raise AnalysisBroken("C01.R7: no constant upper bound on the MTU where tun_setmtu uses it")
+    hdr = set()
+    for rt in [f for f in P.funcs(cli | srv) if f.name == "read_tun"]:
+        for b, c in rt.calls():
+            if c.get("fn") in ("read", "recv") and len(c["a"]) >= 3:
+                fm = L.lin(c["a"][2])
+                if fm is not None and len(fm[0]) == 1 and list(fm[0].values()) == [1]:
+                    hdr.add(-fm[1])
+    if not hdr or min(hdr) < 0:
+        raise AnalysisBroken("C01.R7: read_tun's header allowance not recognised (%s)" % sorted(hdr))
+    # a frame is the packet plus the 4-byte tun header, whether the device supplies it (read into buf) or read_tun
+    # reserves room for it (read into buf + 4, len - 4): the capacity needed is MTU + the larger allowance
+    h4 = max(max(hdr), 4)
+    nrt = 0
+    for units, tag in ((cli, "client"), (srv, "server")):
+        for f in P.funcs(units):
+            if tag == "server" and f.unit.file in (cli & srv):
+                continue
+            for b, c in f.calls("read_tun"):
+                nrt += 1
+                buf, n = sk(c["a"][1]), sk(c["a"][2])
+                ext = (buf.get("t") or {}).get("size") if (buf.get("t") or {}).get("k") == "array" else None
+                nv = cval(n)
+                if nv is None:
+                    ds = E.analysis(f).before_node(c["n"]) or []
+                    los = [guard.d_bounds(d, pp(n))[0] for d in ds]
+                    nv = min(los) if ds and all(l is not None for l in los) else None
+                ok = ext is not None and nv is not None and nv <= ext and nv >= hi + h4
+                chk.site(r7, f, ir.loc(c), "[%s] %s" % (tag, pp(c)[:50]), ok,
+                         "capacity %s of a %s-byte buffer >= MTU %d + %d" % (nv, ext, hi, h4) if ok else
+                         "capacity %s (buffer %s bytes) does not cover the largest frame: MTU up to %d plus %d header bytes" % (nv, ext, hi, h4))
+    if nrt < 2:
+        raise AnalysisBroken("C01.R7: read_tun call sites not found")
 
     headers(P, chk)
 
